@@ -409,6 +409,7 @@ inductive Outcome (V : Type)
   | sendFailed (e : Err)         -- raised / recorded at the sending side
   | noAttribute                  -- AttributeError at the proxy
   | stubError (e : StubErr)      -- TypeError / RuntimeError raised by the stub before anything is sent
+  | timedOut                     -- QMI_RpcTimeoutException("Timeout in RPC call.")
   | lockToken                    -- a lock request's reply (not a method call)
   | waiting                      -- no result (yet)
   deriving Repr, DecidableEq
@@ -421,6 +422,12 @@ def wait : FutSt V → Outcome V
   | .set .exception (some e) => .raised e
   | .set .exception none => .invalidException
   | .set .locked _ => .lockedError
+
+/-- `QMI_RpcFuture.wait(timeout)` at the moment the deadline passes: a result that is there is returned as by `wait`,
+otherwise `QMI_RpcTimeoutException`; either way the `finally` clause unregisters the future -/
+def waitUntilDeadline : FutSt V → Outcome V
+  | .noResult => .timedOut
+  | f => wait f
 
 /-- the direct call `obj.method(*args, **kwargs)` -/
 def directCall (o : Obj V) (name : String) (args : List V) (kwargs : List (String × V)) : Outcome V :=
@@ -560,6 +567,10 @@ destination object id sees the message -/
 def Client.deliverReply (X : Excs V) (c : Client V) (m : Msg V) : Client V :=
   if m.dst.ctx ≠ c.name then c
   else { c with futs := updFirst m.dst.obj (fun f => futureHandle X f m) c.futs }
+
+/-- `unregister_message_handler(future)` in the `finally` of `wait` -/
+def Client.unregister (c : Client V) (k : String) : Client V :=
+  { c with futs := c.futs.filter (fun e => e.1 != k) }
 
 def Client.deliverAll (X : Excs V) (c : Client V) (ms : List (Msg V)) : Client V :=
   ms.foldl (Client.deliverReply X) c
